@@ -213,6 +213,7 @@ class VirtRig:
         self.ctx_fail = False
         self.deadlock = False
         self.setup_failed = False
+        self.prior_rebind = False    # an earlier call on the same Lab under another context, then lab.context is rebound
         self.prior_abort = None      # task that fails (by context) in an earlier, aborted call on the same Lab
         self.in_prior = False
         self.orphans: list = []
@@ -608,6 +609,32 @@ class VirtRig:
             except BaseException:   # noqa
                 pass
             main_ctx['failnow'] = list(cfg['fail'])
+        if self.prior_rebind and backend != 'serial':
+            # An earlier, successful call on the very same Lab under *another* context; the context is then rebound
+            # (lab.context = ...) before the call under observation.
+            lab.context = D.lab_context(7, cfg['n'])
+            self.in_prior = True
+            old_prof = signal.signal(signal.SIGPROF, lambda *_a: (_ for _ in ()).throw(RigHang('earlier call did not finish')))
+            signal.setitimer(signal.ITIMER_PROF, VirtRig.WATCHDOG_S)
+            try:
+                lab.run_tasks([built.make(t) for t in range(1, cfg['n'] + 1) if t not in cfg['fail']], disable_progress=True,
+                              disable_top=True)
+            except BaseException:   # noqa
+                pass
+            finally:
+                signal.setitimer(signal.ITIMER_PROF, 0)
+                signal.signal(signal.SIGPROF, old_prof)
+            self.in_prior = False
+            self.orphans, self.workers = list(self.workers.values()), {}
+            del self.trace[:]
+            self.logq, self.resq, self.monq = [], [], []
+            self.phase, self.idle_polls, self.deadlock, self.round = 'idle', 0, False, 0
+            self.delivered = []
+            try:
+                lab.uncache_tasks([built.make(t) for t in range(1, cfg['n'] + 1) if t not in cfg['cached0']])
+            except BaseException:   # noqa
+                pass
+            lab.context = main_ctx
         self.muted = False
         self.trace.append({'e': 'call'})
         self.preload_int()
